@@ -769,8 +769,28 @@ def check_C06(ctx):
         if x.startswith('Ok(x'):
             grammars.append((g, s, x))
     grammars += accepted_grammars(ctx, n, behaviour=True, max_nts=5, max_terms=4, payload_like_nt=0.3, empty_helper_enum=0.1, wide=0.1)
+    # more than twenty top-level items, in every order of the start / terminal declarations among the nonterminals:
+    # accepted small grammars glued together (the model is skipped for these: minutes at that size)
+    big_from = len(grammars)
+    pool = [h for h, _, _ in accepted_grammars(ctx, ctx.n(40, 200), behaviour=True, max_nts=3, max_terms=3, adversarial=0.0, name_relations=0.0,
+                                               many_terminals=0.0, letterless=0.0, motifs=0.2)]
+    for _ in range(5 if ctx.quick else 40):
+        if len(pool) < 3:
+            break
+        h = gen.join_grammars(ctx.rng, [ctx.rng.choice(pool) for _ in range(ctx.rng.choice([7, 9, 12, 16]))])
+        h.tenum_attrs = ['#[derive(Debug)]']
+        for nt in h.nts:
+            if not nt['attrs']:
+                nt['attrs'] = ['#[derive(Debug)]']
+        s = gen.render(ctx.rng, h, 'plain')
+        x = vlib.run_rust('gen', checks.hex_lines([s]))[0]
+        if x.startswith('Ok(x'):
+            grammars.append((h, s, x))
     srcs = [s for _, s, _ in grammars]
-    m = vlib.run_model('gen', checks.gen_lines(srcs)) if ctx.model_ok else [None] * len(srcs)
+    m = [None] * len(srcs)
+    if ctx.model_ok:
+        for i, y in enumerate(vlib.run_model('gen', checks.gen_lines(srcs[:big_from]))):
+            m[i] = y
     failed = set()
     for i, ((g, s, x), y) in enumerate(zip(grammars, m)):
         res.count(s, any(fs[0] != 'empty' for _, _, fs in g.rules()))
